@@ -98,6 +98,8 @@ func (g *richGen) stmt() {
 	}
 	if !g.o.Mutating {
 		w[15] = 0
+	} else {
+		w[15] = 5
 	}
 	n := g.id()
 	switch g.t.Weighted(w...) {
@@ -241,7 +243,15 @@ func (g *richGen) stmt() {
 		g.ln(`do local o%d = setmetatable({id=%d}, {__gc = function(o) emit("gc", o.id) end}); o%d = nil end`, n, n, n)
 	case 15: // global state mutation (E-ISO)
 		g.feat["mutate"] = true
-		switch g.t.Choose(6) {
+		sub := g.t.Choose(8)
+		if sub == 6 && !g.t.Chance(1, 4) {
+			sub = 0 // the collectgarbage mutation hits an open finding: keep it rare
+		}
+		switch sub {
+		case 6:
+			g.ln(`collectgarbage("stop"); probe(0); emit("gcstopped%d", collectgarbage("isrunning")); collectgarbage("restart"); probe(0); emit("gcrestarted%d", collectgarbage("isrunning"))`, n, n)
+		case 7:
+			g.ln(`math.randomseed(%d); probe(0); local a%d = math.random(100000); probe(0); local b%d = math.random(100000); math.randomseed(%d); emit("x%d", a%d == math.random(100000), b%d == math.random(100000))`, n, n, n, n, n, n, n)
 		case 0:
 			g.ln(`string.upper = function(s) return "U" .. s end; emit("x%d", ("a"):upper())`, n)
 		case 1:
